@@ -462,11 +462,39 @@ def chains(ctx):
         if an is None: continue
         n += 1
         sv = StateView(an, locate(ctx, b, 'ConsistState') or (('f', 'state'),))
+        from .C20 import fold_parts, item_root, whole
         for fld, unit in (('pwr_out_max', 'pwr_out_max'), ('pwr_regen_max', 'pwr_regen_max'), ('pwr_rate_out_max', 'pwr_rate_out_max')):
             t = sv.post(fld).t
             ok = _is_fold_sum(t, unit)
+            why = ''
+            if ok:
+                fp, why = fold_parts(ctx, t)
+                ok = fp is not None
+                if ok:
+                    srcs, init, cb, ca, c = fp
+                    ok = whole(srcs, (('obj', 1), ('f', 'loco_vec'))) and init == ZERO and c[0] == 'pre' and item_root(c[1]) and c[1][1:] == (('f', 'state'), ('f', unit))
+                    why = 'each unit contributes %s' % show(c, ca.names)[:120]
             ctx.check(ok, 'C09-3.chain', '%s|Σ %s' % (b.fid, fld), 'consist %s is the sum over loco_vec of loco.state.%s' % (fld, unit),
-                      'consist %s is %s' % (fld, show(t, an.names)[:300]), ctx.where(b))
+                      'consist %s is %s%s' % (fld, show(t, an.names)[:200], (' — ' + why) if why else ''), ctx.where(b))
+        # what the battery-equipped units can deliver on their own: per powertrain type
+        t = sv.post('pwr_out_max_reves').t
+        okr = False
+        txt = show(t, an.names)[:300]
+        if t[0] == 'Sum' and t[1][0] == 'seq' and [tuple(x) for x in t[1][1]] == [('slice', (('obj', 1), ('f', 'loco_vec')))]:
+            item = t[1][2]
+            pt = ctx.prog.typedef('PowertrainType')
+            vidx = {v['name']: v['idx'] for v in pt.variants}
+            from sa.dsl import select as _sel
+            arms = {v: _sel(item, lambda d: d[0] == 'discr', i_) for v, i_ in vidx.items()}
+            def is_unit_max(x):
+                if x[0] == 'pre':
+                    return x[1][-2:] == (('f', 'state'), ('f', 'pwr_out_max')) and ('f', 'loco_vec') in x[1]
+                return x[0] == 'proj' and x[2] == ('f', 'pwr_out_max') and x[1][0] == 'proj' and x[1][2] == ('f', 'state') and x[1][1][0] == 'elem' \
+                    and "('f', 'loco_vec')" in repr(x[1][1][1]) and x[1][1][2][0] == 'bound'
+            okr = arms.get('ConventionalLoco') == ZERO and is_unit_max(arms.get('HybridLoco', ZERO)) and is_unit_max(arms.get('BatteryElectricLoco', ZERO))
+            txt = {v: show(a, an.names)[:60] for v, a in arms.items()}
+        ctx.check(okr, 'C09-3.chain', '%s|Σ pwr_out_max_reves' % b.fid, 'battery capability of the consist = Σ over every unit of: 0 for a conventional unit, the unit\'s published limit for hybrid and battery-electric units',
+                  'pwr_out_max_reves is %s' % (txt,), ctx.where(b))
         prove(ctx, 'C09-3.chain', b.fid + '|non_reves', an, 'eq', sv.post('pwr_out_max_non_reves'), sv.post('pwr_out_max') - sv.post('pwr_out_max_reves'), assume=[])
     ctx.floor('limit chain functions', n, 4)
 
